@@ -21,6 +21,13 @@ The inverse is additionally run on scaled copies of small complete grids
 (part ``mat4_inverse_scaled``): regular matrices with tiny / huge determinants
 must still be inverted, singular ones with large entries still reported.
 
+lerp runs, on the complete grid of vector pairs, with alphas inside, on
+and beyond both end points of [0, 1] (a clamped / saturated alpha is a
+branching variant that the polynomial argument does not cover), and part
+``vec_zero_length`` runs every direction- or length-defined operation on
+every way of writing the zero vector (the boundary where v / |v| has no value
+and each operation depends on a guard).
+
 A case is a small JSON-able tuple; ``replay`` re-runs exactly one of them.
 """
 import itertools
@@ -116,9 +123,19 @@ RULE = (
     '(clamp, limit): all weak orderings / complete quarter-step grids '
     'across the branch boundary.  Swizzling: every string of length 0..4 '
     'over {x,y,z,w,a} and every string of length 5 over the own letters.  '
+    'lerp: every pair of vectors of the complete grid {0, -1, 3/2}^(2n) '
+    'x alpha in {0, 1/2, 1} and in {-1, -1/4, 5/4, 3} (both sides of '
+    'both end points of [0, 1], far and near; thorough adds 2, '
+    '+-1/1000 around 0 and 1 -+ 1/1000 around 1) for Vec2/3/4 in both '
+    'tiers.  Part vec_zero_length: the zero vector written in 6 ways '
+    '(int 0, 0.0, -0.0, Fraction(0), a mixture, p - p for a float '
+    'point p) x normalize, abs (Vec2/3/4), from_magnitude x 6 '
+    'magnitudes (0, 1, 5/2, 0.5, 4.0, 1000.0), limit x 4 maxima '
+    '(Vec2/3), from_heading and rotate x the 18 angles (Vec2).  '
     'A case is distinct by its input tuple; non-trivial = it exercised a '
     'named shortcut (singular matrix, truncating limit, repeated swizzle '
-    'letter, clamping below/above, basis pair, ...).  For block cases '
+    'letter, clamping below/above, basis pair, alpha beyond an end '
+    'point, zero-length operand, ...).  For block cases '
     '(matrix inverse) one case is a block of the grid with its first two '
     'rows fixed; transitions counts every implementation call.')
 
@@ -152,8 +169,8 @@ ASSUMPTIONS = [
     'operands that binary floats represent exactly (integers, dyadic '
     'fractions), so that == is exact.',
     'Outside the alphabet (statement silent): division by zero, clamp with '
-    'min > max, limit with negative m, from_magnitude with negative or on a '
-    'zero vector, heading of the zero vector, orthogonal_projection with an '
+    'min > max, limit with negative m, from_magnitude with a negative '
+    'magnitude, heading of the zero vector, orthogonal_projection with an '
     'empty box side, Mat3.scale/translate/rotate/shear, Mat4.scale/rotate/'
     'from_rotation/perspective_projection/look_at*, __round__.',
     'limit(m): only the two stated clauses are demanded (|result| <= m up '
@@ -203,6 +220,34 @@ ASSUMPTIONS = [
     'inverse within 1e-12.  Histories longer than two consecutive '
     'inversions (other matrices in between) only occur as the enumeration '
     'order of the families happens to produce them.',
+    'lerp is demanded for every scalar alpha, not only for the documented '
+    'range [0, 1]: the statement gives the textbook definition (1 - '
+    'alpha) a + alpha b "for all vectors, matrices and scalars: exactly '
+    'over the rationals for the polynomial operations".  The grid lemma '
+    'covers straight-line variants with 3 alphas; branching variants '
+    '(alpha clamped, saturated, early return at an end point) are only '
+    'covered on the enumerated alphas: -1, -1/4, 0, 1/2, 1, 5/4, 3 '
+    '(thorough also 2 and the four values 1/1000 away from 0 and 1); a '
+    'variant that branches at another alpha or only for alphas further '
+    'out than 3 / -1 is outside the family.',
+    'vec_zero_length: the statement quantifies over all vectors, the zero '
+    'vector included ("zero stays zero").  Demanded of a zero vector, '
+    'however it is written (0, 0.0, -0.0, Fraction(0), mixed, the '
+    'difference of two equal vectors): normalize returns the zero vector; '
+    'abs is 0; limit(m), m >= 0, returns it unchanged (0 <= m); '
+    'from_heading and rotate return the zero vector (the magnitude must '
+    'not change); from_magnitude(m), m >= 0, returns a vector - an '
+    'exception is a violation like in every other part.  The statement '
+    'does not say which vector: there is no direction to keep, so the '
+    'oracle accepts both readings, the zero vector (nothing to scale; '
+    'what the pinned tree does through normalize) and any vector of '
+    'magnitude m (relative 4e-9 on the square), and rejects only '
+    'everything else (exception, nan/inf entries, another length).  '
+    'Shortcuts info_zero_from_magnitude_stays_zero / '
+    'info_zero_from_magnitude_has_length_m record which reading was '
+    'seen.  Vectors that are non-zero but whose squared length '
+    'underflows to 0.0 are outside the family ("floats of moderate '
+    'magnitude").',
     'Instances of user subclasses of Vec2/3/4 (class Point(Vec4): pass) '
     'are vectors: Mat @ v and every vector operation must give, for such a '
     'v, a result equal (==, same length) to the result for the plain '
@@ -511,17 +556,33 @@ def run_vec_cross(case):
 
 # ---------------------------------------------------------------------------
 # part vec_lerp
+# lerp is a polynomial of degree 1 in alpha, so three values decide every
+# straight-line variant (grid lemma); a *branching* variant (alpha clamped /
+# saturated to the documented range [0, 1], early return at an end point) is
+# only seen by alphas on both sides of both end points.  ALPHAS_OUT puts one
+# value far and one value close outside each end of [0, 1]; every alpha runs
+# on the same complete grid of vector pairs.
 ALPHAS = (0, 1, '1/2')
+ALPHAS_OUT = (-1, 3, '-1/4', '5/4')
+ALPHAS_THOROUGH = (2, '-1/1000', '1001/1000', '999/1000', '1/1000')
 
 
 def cases_vec_lerp(tier):
     cases = []
-    for cls in VECS:
-        n = DIM[cls]
-        for ab in product(G3, repeat=2 * n):
-            for al in ALPHAS + ((-1, 3) if tier == 'thorough'
-                                and cls != 'Vec4' else ()):
-                cases.append((cls, 'lerp', ab[:n], ab[n:], al))
+    for alphas in (ALPHAS, ALPHAS_OUT):
+        for cls in VECS:
+            n = DIM[cls]
+            for ab in product(G3, repeat=2 * n):
+                for al in alphas:
+                    cases.append((cls, 'lerp', ab[:n], ab[n:], al))
+    if tier == 'thorough':
+        # the quick family first (same minimal counterexamples in both
+        # tiers), then alphas hugging the end points of [0, 1]
+        for cls in VECS:
+            n = DIM[cls]
+            for ab in product(G3, repeat=2 * n):
+                for al in ALPHAS_THOROUGH:
+                    cases.append((cls, 'lerp', ab[:n], ab[n:], al))
     return cases
 
 
@@ -541,8 +602,14 @@ def run_vec_lerp(case):
         hits.append('lerp_alpha0_is_self')
     elif al == 1:
         hits.append('lerp_alpha1_is_other')
+    elif 0 < al < 1:
+        hits.append('lerp_inside')
     else:
-        hits.append('lerp_inside' if 0 < al < 1 else 'lerp_extrapolates')
+        # beyond an end point: the result leaves the segment a..b
+        hits.append('lerp_extrapolates_below' if al < 0
+                    else 'lerp_extrapolates_above')
+        if list(exp) != list(a) and list(exp) != list(b):
+            hits.append('lerp_extrapolation_differs_from_end_points')
     return info(1, hits, case)
 
 
@@ -1967,7 +2034,9 @@ def run_vec_float(case):
     if op == 'from_magnitude':
         mag = MAGNITUDES[idx]
         if zero:
-            return info(0, ['zero_vector_from_magnitude_skipped'], case)
+            # checked in part vec_zero_length (every way of writing zero)
+            return info(0, ['zero_vector_from_magnitude_in_vec_zero_length'],
+                        case)
         what = f'{show(cls, vals)}.from_magnitude({mag})'
         r = call(clause, feats, what, vec.from_magnitude, mag)
         close_vec(clause, feats, what, r, [x / norm * mag for x in vals],
@@ -2012,6 +2081,134 @@ def run_vec_float(case):
 
 
 # ---------------------------------------------------------------------------
+# part vec_zero_length: the zero-length boundary of every operation that is
+# defined through the direction or the length of its vector.  The textbook
+# formula v / |v| has no value there, so each of them needs (and can lose) a
+# guard.  Every way of writing the zero vector (ints, floats, negative float
+# zeros, Fractions, a mixture, the difference of two equal vectors - the
+# "arrived at the target" case of steering code) x every operation x every
+# listed argument.
+ZERO_KINDS = ('int', 'float', 'negative_float', 'fraction', 'mixed',
+              'difference')
+ZL_MAGNITUDES = (0, 1, '5/2', 0.5, 4.0, 1000.0)
+ZL_LIMITS = (0, '1/2', 3, 2.5)
+ZL_OPS = {
+    'normalize': VECS, 'abs': VECS,
+    'from_magnitude': ('Vec2', 'Vec3'), 'limit': ('Vec2', 'Vec3'),
+    'from_heading': ('Vec2',), 'rotate': ('Vec2',),
+}
+_MIXED_ZEROS = (0, -0.0, F(0), 0.0)
+_DIFF_POINT = (2.0, -1.0, 0.5, 3)
+
+
+def zero_vector(cls, kind):
+    """-> (the vector, how it was written)."""
+    C = CLS[cls]
+    n = DIM[cls]
+    if kind == 'difference':
+        p = _DIFF_POINT[:n]
+        return C(*p) - C(*p), f'({show(cls, p)} - {show(cls, p)})'
+    if kind == 'int':
+        z = (0,) * n
+    elif kind == 'float':
+        z = (0.0,) * n
+    elif kind == 'negative_float':
+        z = (-0.0,) * n
+    elif kind == 'fraction':
+        z = (F(0),) * n
+    elif kind == 'mixed':
+        z = _MIXED_ZEROS[:n]
+    else:
+        raise HarnessError(f'unknown kind of zero vector {kind!r}')
+    return C(*z), show(cls, [repr(x) for x in z])
+
+
+def cases_vec_zero_length(tier):
+    cases = []
+    for op, classes in ZL_OPS.items():
+        if op in ('normalize', 'abs'):
+            args = (0,)
+        elif op == 'from_magnitude':
+            args = ZL_MAGNITUDES
+        elif op == 'limit':
+            args = ZL_LIMITS
+        else:
+            args = tuple(range(len(ANGLES)))        # indices into ANGLES
+        for cls in classes:
+            for kind in ZERO_KINDS:
+                for arg in args:
+                    cases.append((cls, op, kind, arg))
+    return cases
+
+
+def run_vec_zero_length(case):
+    cls, op, kind, arg = case
+    if op not in ZL_OPS or cls not in ZL_OPS[op]:
+        raise HarnessError(f'unknown vec_zero_length case {case!r}')
+    clause = 'vec_zero_length'
+    feats = dict(cls=cls, op=op)
+    n = DIM[cls]
+    vec, label = zero_vector(cls, kind)
+    if not same(vec, [0] * n):
+        raise Violation(clause, f'{label} -> {vec!r}, expected the zero '
+                        'vector', kind='construction', **feats)
+    hits = [f'zero_length_{op}', f'zero_written_as_{kind}']
+
+    def must_be_zero(what, r, why):
+        if not same(r, [0] * n):
+            raise Violation(clause, f'{what} -> {r!r}: {why}',
+                            kind='zero_changed', **feats)
+
+    if op == 'normalize':
+        what = f'{label}.normalize()'
+        r = call(clause, feats, what, vec.normalize)
+        must_be_zero(what, r, 'zero must stay zero')
+    elif op == 'abs':
+        what = f'abs({label})'
+        r = call(clause, feats, what, abs, vec)
+        if vals_of(r) is not None or r != 0:
+            raise Violation(clause, f'{what} -> {r!r}, expected 0',
+                            kind='value', **feats)
+    elif op == 'limit':
+        m = dec(arg)
+        what = f'{label}.limit({m!r})'
+        r = call(clause, feats, what, vec.limit, m)
+        must_be_zero(what, r, 'a short enough vector must stay unchanged')
+    elif op in ('from_heading', 'rotate'):
+        ang = ANGLES[arg]
+        what = f'{label}.{op}({ang})'
+        r = call(clause, feats, what, getattr(vec, op), ang)
+        must_be_zero(what, r, 'only the heading may change, the magnitude '
+                     'must stay 0')
+    else:
+        m = dec(arg)
+        what = f'{label}.from_magnitude({m!r})'
+        r = call(clause, feats, what, vec.from_magnitude, m)
+        t = vals_of(r)
+        try:
+            ok = t is not None and len(t) == n
+            length2 = sum(F(x) ** 2 for x in t) if ok else None
+        except (TypeError, ValueError, OverflowError):      # nan, inf, str
+            ok = False
+        if not ok:
+            raise Violation(clause, f'{what} -> {r!r}, not a {cls} of finite '
+                            'numbers', kind='not_a_vector', **feats)
+        m2 = F(m) ** 2
+        if length2 == 0:
+            hits.append('info_zero_from_magnitude_stays_zero')
+        elif abs(length2 - m2) <= 4 * F(TOL) * m2:
+            hits.append('info_zero_from_magnitude_has_length_m')
+        else:
+            raise Violation(
+                clause, f'{what} -> {r!r}: neither the zero vector (nothing '
+                f'to scale) nor a vector of magnitude {m!r}',
+                kind='neither_zero_nor_magnitude_m', **feats)
+        if m == 0:
+            hits.append('zero_length_from_magnitude_zero')
+    return info(1, hits, case)
+
+
+# ---------------------------------------------------------------------------
 PARTS = {
     'vec_arith': (cases_vec_arith, run_vec_arith),
     'vec_cross': (cases_vec_cross, run_vec_cross),
@@ -2033,6 +2230,7 @@ PARTS = {
     'mat4_inverse_full_grid': (cases_mat4_inverse_full,
                                run_mat4_inverse_full),
     'vec_float': (cases_vec_float, run_vec_float),
+    'vec_zero_length': (cases_vec_zero_length, run_vec_zero_length),
 }
 THOROUGH_ONLY = ('mat4_inverse_full_grid',)
 
@@ -2056,6 +2254,15 @@ def run(tier, rep):
         default_is_identity=1, transpose_moves_entry=1,
         ortho_box_corners_to_unit_cube=1, exact_fraction_division=1,
         lerp_alpha1_is_other=1, cross_nonzero=1,
+        lerp_inside=1, lerp_extrapolates_below=1, lerp_extrapolates_above=1,
+        lerp_extrapolation_differs_from_end_points=1,
+        zero_length_normalize=1, zero_length_abs=1,
+        zero_length_from_magnitude=1, zero_length_from_magnitude_zero=1,
+        zero_length_limit=1, zero_length_from_heading=1,
+        zero_length_rotate=1, zero_written_as_int=1,
+        zero_written_as_float=1, zero_written_as_negative_float=1,
+        zero_written_as_fraction=1, zero_written_as_mixed=1,
+        zero_written_as_difference=1,
         distance_perfect_square=1, distance_irrational=1,
         rotate=1, from_heading=1, from_magnitude=1, polar=1,
         vec_subclass_operand=1, vec_subclass_mixed_with_plain=1,
